@@ -12,7 +12,7 @@ or `:` and digits of the port class, `tl` empty or starting with `/`, `?` or `#`
 `ui H po` and hostname `lower H` in such a string.
 -/
 namespace Ural.UrlPattern
-open Ural.Py Ural.Py.Re Ural.Gen.Patterns Ural.UrlParts Ural.UrlRoundTrip Ural.CanonRoundTrip
+open Ural.Py Ural.Py.Re Ural.Py.Re.Extra Ural.Gen.Patterns Ural.UrlParts Ural.UrlRoundTrip Ural.CanonRoundTrip
 
 /-- `http` / `https` in any ASCII case -/
 def SchHttp (sch : Str) : Prop :=
